@@ -621,16 +621,22 @@ class Threads(EngineBase):
         elif prog == "C10t":
             world = None
             nthreads = 2
+            # half of the programs run 32-bit counters close to their limit
+            # (real wraps while two threads call; no cache_clear() in those,
+            # so that the order of the reads fixes the expected answers)
+            wrapping = rng.random() < 0.5
             for t in range(nthreads):
                 ops = []
                 for _ in range(rng.randrange(2, 5)):
                     if rng.random() < 0.7:
-                        ops.append({"op": "ev", "ev": {
-                            "ev": "net_add", "name": "eth0",
-                            "inc": [rng.randrange(0, 900)
-                                    for _ in range(16)]}})
+                        ev = {"ev": "net_add", "name": "eth0",
+                              "inc": [rng.randrange(0, 900)
+                                      for _ in range(16)]}
+                        if wrapping:
+                            ev["mod"] = 2 ** 32
+                        ops.append({"op": "ev", "ev": ev})
                     ops.append({"op": "net"})
-                    if rng.random() < 0.25:
+                    if rng.random() < 0.25 and not wrapping:
                         ops.append({"op": "clear"})
                 threads.append(ops)
         plan = {"prog": prog, "world": world, "threads": threads,
@@ -643,6 +649,11 @@ class Threads(EngineBase):
                              "files": files, "pid_lo": 2, "pid_hi": 6}
         if prog in ("C07t", "C10t"):
             plan["world"] = {"net": {"eth0": [1000] * 16}}
+        if prog == "C10t" and wrapping:
+            plan["wrapping"] = True
+            plan["world"]["net"]["eth0"] = [
+                2 ** 32 - rng.randrange(1, 1500) if rng.random() < 0.6
+                else 1000 for _ in range(16)]
         if prog == "C07t" and tnames:
             plan["world"]["thread_names"] = tnames
         return plan
@@ -1235,6 +1246,41 @@ class Threads(EngineBase):
                   "%r" % (got,))
                 continue
             rec["vals"] = tuple(got["eth0"])
+        if plan.get("wrapping"):
+            # reads happen under the lock: their order is the order in which
+            # the calls entered it, and the reference model run over the raw
+            # tables in that order gives each call's answer
+            model = WrapModel()
+            calls = []
+            for rec in allrecs:
+                if "vals" not in rec:
+                    continue
+                rd = [r for r in rec["tabreads"] if r[0] == rec["t"] and
+                      r[2] == "/proc/net/dev"]
+                if len(rd) != 1:
+                    V("C10.concurrent", ["threads", "reads"],
+                      "net_io_counters", "thread %d: %d reads of "
+                      "/proc/net/dev in one call" % (rec["t"], len(rd)))
+                    continue
+                calls.append((rd[0][4], rec, rd[0][5]))
+            calls.sort(key=lambda c: c[0])
+            for _, rec, table in calls:
+                want, tags = model.call({"eth0": net_raw(table["eth0"])})
+                if rec["vals"] != want["eth0"]:
+                    V("C10.concurrent", ["threads", "wrapping"] + sorted(
+                        tags & {"wrap", "repeated_wrap"}),
+                      "net_io_counters", "thread %d got %r; the calls "
+                      "entered the lock in the order of their reads, which "
+                      "gives %r (raw %r)" % (rec["t"], rec["vals"],
+                                             want["eth0"],
+                                             net_raw(table["eth0"])))
+                else:
+                    probes["concurrent_wrapping_checked"] = probes.get(
+                        "concurrent_wrapping_checked", 0) + 1
+                    if "wrap" in tags:
+                        probes["wrap_seen_by_thread"] = probes.get(
+                            "wrap_seen_by_thread", 0) + 1
+            return
         # raw never decreases in this program => no wrap may be inferred:
         # every returned tuple must be one of the raw snapshots that existed
         snaps = [net_raw(h["eth0"]) for h in k.net_hist if "eth0" in h]
